@@ -516,6 +516,85 @@ example : ((anchorSpecs.filter fun s => (findField s "whirlpool").isSome && (fin
            (anchorSpecs.filter fun s => (findField s "position_bundle").isSome && (findField s "position_bundle_token_account").isSome).length)
     = (12, 6, 9, 4, 5) := by decide +kernel
 
+/-- PDA identity and the remaining pinning attributes (measured by tools/table_mutants.py: these were the
+    property-relevant attributes whose deletion no theorem noticed): every `seeds` attribute of every reachable
+    struct — the address of a pool, position, tick array, fee tier, oracle, bundle, token badge, config extension
+    and lock config IS its identity —, `position_mint = position.position_mint`, the bundle's mint, the lock
+    config's and the transfer destination's ties, the fee tier's spacing, the adaptive-tier requirement of the
+    delegated setter, and `token program = owner of the mint` for the two-program interface slots.
+    (Left out on purpose: payer signatures, `address` attributes that repeat what the `Program<T>` type already
+    fixes, the Metaplex update authority, and the three Anchor structs the entrypoint never reaches.) -/
+def goldenRows : List (String × String × String × String) := [
+  ("InitializeAdaptiveFeeTier", "adaptive_fee_tier", "seeds", "[ b\"fee_tier\", whirlpools_config.key().as_ref(), fee_tier_index.to_le_bytes().as_ref() ]"),
+  ("InitializePoolWithAdaptiveFee", "token_badge_a", "seeds", "[b\"token_badge\", whirlpools_config.key().as_ref(), token_mint_a.key().as_ref()]"),
+  ("InitializePoolWithAdaptiveFee", "token_badge_b", "seeds", "[b\"token_badge\", whirlpools_config.key().as_ref(), token_mint_b.key().as_ref()]"),
+  ("InitializePoolWithAdaptiveFee", "whirlpool", "seeds", "[ b\"whirlpool\".as_ref(), whirlpools_config.key().as_ref(), token_mint_a.key().as_ref(), token_mint_b.key().as_ref(), adaptive_fee_tier.fee_tier_index.to_le_bytes().as_ref() ]"),
+  ("InitializePoolWithAdaptiveFee", "oracle", "seeds", "[b\"oracle\", whirlpool.key().as_ref()]"),
+  ("InitializePoolWithAdaptiveFee", "token_program_a", "address", "*token_mint_a.to_account_info().owner"),
+  ("InitializePoolWithAdaptiveFee", "token_program_b", "address", "*token_mint_b.to_account_info().owner"),
+  ("SetFeeRateByDelegatedFeeAuthority", "whirlpool", "constraint", "whirlpool.is_initialized_with_adaptive_fee_tier()"),
+  ("CloseBundledPosition", "bundled_position", "seeds", "[ b\"bundled_position\".as_ref(), position_bundle.position_bundle_mint.key().as_ref(), bundle_index.to_string().as_bytes() ]"),
+  ("ClosePosition", "position", "seeds", "[b\"position\".as_ref(), position_mint.key().as_ref()]"),
+  ("ClosePosition", "position_mint", "address", "position.position_mint"),
+  ("ClosePositionWithTokenExtensions", "position", "seeds", "[b\"position\".as_ref(), position_mint.key().as_ref()]"),
+  ("ClosePositionWithTokenExtensions", "position_mint", "address", "position.position_mint"),
+  ("DeletePositionBundle", "position_bundle_mint", "address", "position_bundle.position_bundle_mint"),
+  ("InitializeDynamicTickArray", "tick_array", "seeds", "[b\"tick_array\", whirlpool.key().as_ref(), start_tick_index.to_string().as_bytes()]"),
+  ("InitializeFeeTier", "fee_tier", "seeds", "[b\"fee_tier\", config.key().as_ref(), tick_spacing.to_le_bytes().as_ref()]"),
+  ("InitializePool", "whirlpool", "seeds", "[ b\"whirlpool\".as_ref(), whirlpools_config.key().as_ref(), token_mint_a.key().as_ref(), token_mint_b.key().as_ref(), tick_spacing.to_le_bytes().as_ref() ]"),
+  ("InitializePool", "fee_tier", "constraint", "fee_tier.tick_spacing == tick_spacing"),
+  ("InitializePositionBundle", "position_bundle", "seeds", "[b\"position_bundle\".as_ref(), position_bundle_mint.key().as_ref()]"),
+  ("InitializePositionBundleWithMetadata", "position_bundle", "seeds", "[b\"position_bundle\".as_ref(), position_bundle_mint.key().as_ref()]"),
+  ("InitializeTickArray", "tick_array", "seeds", "[b\"tick_array\", whirlpool.key().as_ref(), start_tick_index.to_string().as_bytes()]"),
+  ("LockPosition", "position", "seeds", "[b\"position\".as_ref(), position_mint.key().as_ref()]"),
+  ("LockPosition", "position_mint", "address", "position.position_mint"),
+  ("LockPosition", "lock_config", "seeds", "[b\"lock_config\".as_ref(), position.key().as_ref()]"),
+  ("OpenBundledPosition", "bundled_position", "seeds", "[ b\"bundled_position\".as_ref(), position_bundle.position_bundle_mint.key().as_ref(), bundle_index.to_string().as_bytes() ]"),
+  ("OpenPosition", "position", "seeds", "[b\"position\".as_ref(), position_mint.key().as_ref()]"),
+  ("OpenPositionWithMetadata", "position", "seeds", "[b\"position\".as_ref(), position_mint.key().as_ref()]"),
+  ("OpenPositionWithTokenExtensions", "position", "seeds", "[b\"position\".as_ref(), position_mint.key().as_ref()]"),
+  ("Swap", "oracle", "seeds", "[b\"oracle\", whirlpool.key().as_ref()]"),
+  ("TransferLockedPosition", "position", "seeds", "[b\"position\".as_ref(), position_mint.key().as_ref()]"),
+  ("TransferLockedPosition", "position_mint", "address", "position.position_mint"),
+  ("TransferLockedPosition", "destination_token_account", "constraint", "destination_token_account.mint == position.position_mint"),
+  ("TransferLockedPosition", "destination_token_account", "constraint", "destination_token_account.key() != position_token_account.key()"),
+  ("TransferLockedPosition", "lock_config", "has_one", "position"),
+  ("TwoHopSwap", "oracle_one", "seeds", "[b\"oracle\", whirlpool_one.key().as_ref()]"),
+  ("TwoHopSwap", "oracle_two", "seeds", "[b\"oracle\", whirlpool_two.key().as_ref()]"),
+  ("CollectFeesV2", "token_program_a", "address", "*token_mint_a.to_account_info().owner"),
+  ("CollectFeesV2", "token_program_b", "address", "*token_mint_b.to_account_info().owner"),
+  ("CollectProtocolFeesV2", "token_program_a", "address", "*token_mint_a.to_account_info().owner"),
+  ("CollectProtocolFeesV2", "token_program_b", "address", "*token_mint_b.to_account_info().owner"),
+  ("CollectRewardV2", "reward_token_program", "address", "*reward_mint.to_account_info().owner"),
+  ("DeleteTokenBadge", "token_badge", "seeds", "[ b\"token_badge\", whirlpools_config.key().as_ref(), token_mint.key().as_ref(), ]"),
+  ("InitializeConfigExtension", "config_extension", "seeds", "[ b\"config_extension\", config.key().as_ref(), ]"),
+  ("InitializePoolV2", "token_badge_a", "seeds", "[b\"token_badge\", whirlpools_config.key().as_ref(), token_mint_a.key().as_ref()]"),
+  ("InitializePoolV2", "token_badge_b", "seeds", "[b\"token_badge\", whirlpools_config.key().as_ref(), token_mint_b.key().as_ref()]"),
+  ("InitializePoolV2", "whirlpool", "seeds", "[ b\"whirlpool\".as_ref(), whirlpools_config.key().as_ref(), token_mint_a.key().as_ref(), token_mint_b.key().as_ref(), tick_spacing.to_le_bytes().as_ref() ]"),
+  ("InitializePoolV2", "fee_tier", "constraint", "fee_tier.tick_spacing == tick_spacing"),
+  ("InitializePoolV2", "token_program_a", "address", "*token_mint_a.to_account_info().owner"),
+  ("InitializePoolV2", "token_program_b", "address", "*token_mint_b.to_account_info().owner"),
+  ("InitializeRewardV2", "reward_token_badge", "seeds", "[b\"token_badge\", whirlpool.whirlpools_config.as_ref(), reward_mint.key().as_ref()]"),
+  ("InitializeRewardV2", "reward_token_program", "address", "*reward_mint.to_account_info().owner"),
+  ("InitializeTokenBadge", "token_badge", "seeds", "[ b\"token_badge\", whirlpools_config.key().as_ref(), token_mint.key().as_ref(), ]"),
+  ("SwapV2", "token_program_a", "address", "*token_mint_a.to_account_info().owner"),
+  ("SwapV2", "token_program_b", "address", "*token_mint_b.to_account_info().owner"),
+  ("SwapV2", "oracle", "seeds", "[b\"oracle\", whirlpool.key().as_ref()]"),
+  ("TwoHopSwapV2", "token_program_input", "address", "*token_mint_input.to_account_info().owner"),
+  ("TwoHopSwapV2", "token_program_intermediate", "address", "*token_mint_intermediate.to_account_info().owner"),
+  ("TwoHopSwapV2", "token_program_output", "address", "*token_mint_output.to_account_info().owner"),
+  ("TwoHopSwapV2", "oracle_one", "seeds", "[b\"oracle\", whirlpool_one.key().as_ref()]"),
+  ("TwoHopSwapV2", "oracle_two", "seeds", "[b\"oracle\", whirlpool_two.key().as_ref()]")]
+
+def goldenOk (r : String × String × String × String) : Bool :=
+  match findSpec anchorSpecs r.1 with
+  | none => false
+  | some s => match findField s r.2.1 with
+    | none => false
+    | some f => hasAttr f r.2.2.1 r.2.2.2
+
+theorem golden_rows_met : goldenRows.all goldenOk = true := by decide +kernel
+
 theorem position_links_everywhere : anchorSpecs.all positionLinkOk = true := by decide +kernel
 theorem position_token_links_everywhere : anchorSpecs.all positionTokenLinkOk = true := by decide +kernel
 
